@@ -365,5 +365,47 @@ func crCases(c *core.Ctx) ([]json.RawMessage, error) {
 			}
 		}
 	}
+	// ---- I. pumping: the automata loop on the character classes inside strings, numbers, names and comments, so a
+	// text stays a behaviour of the specification when one such byte is replaced by a run of bytes of its class.
+	// Runs are made of malformed and truncated UTF-8, multi-byte characters, letters, digits and escapes; buffers
+	// sized from the length of the literal are what this family is after.
+	{
+		runs := [][]byte{
+			[]byte(strings.Repeat("\xff", 5)), []byte(strings.Repeat("\xff", 40)), []byte(strings.Repeat("\xc3", 17)), []byte(strings.Repeat("\xe2\x82", 9)),
+			[]byte(strings.Repeat("\xf0\x9f\x98\x80", 12)), []byte(strings.Repeat("\xed\xa0\x80", 7)), []byte(strings.Repeat("a", 70)), []byte(strings.Repeat("9", 25)),
+			[]byte(strings.Repeat("0", 25)), []byte(strings.Repeat("\\u00e9", 11)), []byte(strings.Repeat("\\n", 33)), []byte(strings.Repeat("\\ud83d", 5)),
+		}
+		base := len(out)
+		stride := c.Pick(17, 3)
+		np := 0
+		for i := 0; i < base; i++ {
+			if (i+int(c.Seed))%stride != 0 {
+				continue
+			}
+			var cs crCase
+			if json.Unmarshal(out[i], &cs) != nil || len(cs.Text) == 0 || len(cs.Text) > 40 || cs.Entry == "number" {
+				continue
+			}
+			k := rng.Intn(len(cs.Text))
+			run := runs[rng.Intn(len(runs))]
+			t := append(append(append([]byte{}, cs.Text[:k]...), run...), cs.Text[k+1:]...)
+			crAdd(&out, seen, crCase{Entry: cs.Entry, Text: t, Types: cs.Types, Self: cs.Self, Src: cs.Src + "/pumped"})
+			np++
+		}
+		// the enum catalogue's strings and the schema's string positions, every run
+		for _, run := range runs {
+			q := `"` + string(run) + `"`
+			for _, e := range []string{"[" + q + ", 1]", "[1, " + q + "]", "[" + q + ", " + q + "]", "[" + q} {
+				crAdd(&out, seen, crCase{Entry: "enum", Text: []byte(e), Src: "EnumRule/pumped"})
+			}
+			for _, e := range []string{q, "{" + q + ": 1}", "[" + q + "]", "{\"k\": " + q + " // {enum: [" + q + ", 1]}\n}", "1 // {const: true} - " + string(run), q + " // {regex: " + q + "}", "{\n  @a: " + q + "\n}", "@" + string(run), "# " + string(run) + "\n1"} {
+				crAdd(&out, seen, crCase{Entry: "schema", Text: []byte(e), Src: "JSchemaScan/pumped"})
+				crAdd(&out, seen, crCase{Entry: "type", Text: []byte(e), Src: "JSchemaScan/pumped"})
+			}
+			crAdd(&out, seen, crCase{Entry: "jdoc", Text: []byte("[" + q + ", {" + q + ": " + q + "}]"), Src: "JsonDoc/pumped"})
+			crAdd(&out, seen, crCase{Entry: "regex", Text: []byte("/" + string(run) + "/"), Src: "RegexDelim/pumped"})
+		}
+		c.Set("pumped_cases", np+len(runs)*24)
+	}
 	return out, nil
 }
